@@ -2082,6 +2082,8 @@ package analysis
 //@   loop 2: invariant an != nil && idxKeysWF(an) && sch != nil
 //@   loop 1: invariant failed == old(failed)
 //@   loop 2: invariant failed == old(failed)
+//@   callsite Save: callee_sp == isn.Spec && !(callee_name in dom(isn.Spec.Definitions))
+//@   loop 2: invariant !(newName in dom(isn.Spec.Definitions))
 
 //@ func flattenAnonPointer(key, v, refsToReplace, namer, opts)
 //@   aspect safe
@@ -2156,6 +2158,9 @@ package analysis
 //@   loop 2: invariant failed == old(failed)
 
 // (importExternalReferences creates the bookkeeping when its caller did not)
+//@   callsite Save: callee_sp == opts.Spec.spec && !(callee_name in dom(opts.Spec.spec.Definitions))
+//@   loop 2: invariant !(newName in dom(opts.Spec.spec.Definitions))
+
 //@ func importExternalReferences(opts)
 //@   aspect safe
 //@   requires optsBase(opts) && (opts.flattenContext != nil ==> ctxWF(opts.flattenContext)) && idxKeysWF(opts.Spec)
